@@ -73,7 +73,7 @@ def _format_result_details(details):
     if not isinstance(details, str):
         details = str(details)
 
-    return details[0].upper() + details[1:]
+    return details[:1].upper() + details[1:]
 
 
 def _log_match_result(hint, matcher, result, quiet=False):
